@@ -174,7 +174,14 @@ impl<'a, 'b> ElemGen<'a, 'b> {
 
     pub fn generics(&mut self, rng: &mut Rng) -> (String, String) {
         if rng.chance(1, 2) {
-            return (String::new(), String::new());
+            // no parameters; a where-clause may still be there
+            let wh = match rng.below(6) {
+                0 => " where String: Clone",
+                1 => " where for<'x> &'x str: Into<String>",
+                _ => "",
+            };
+            let params = if rng.chance(1, 6) { "<>" } else { "" };
+            return (params.to_string(), wh.to_string());
         }
         let mut ps = vec![];
         if rng.coin() {
@@ -604,6 +611,10 @@ impl<'a> Interp<'a> {
 impl EItem {
     /// `syn::Generics` prints its parameter list only (defaults included)
     pub fn generics_for_dump(&self) -> String {
+        // an empty `<>` is kept by the syntax tree but printed as nothing
+        if self.generics.trim() == "<>" {
+            return String::new();
+        }
         self.generics.clone()
     }
 }
